@@ -2404,7 +2404,37 @@ class Norm:
             return None
         text, slots = [], []
         last_loop = None
-        for (node, kind, _g), r in zip(effs, rel):
+
+        def piece_of(node, kind):
+            if kind == "mutcall" and cshort(node.get("callee", "")) == "Extend::extend" and self._lhs_path(node["recv"]) == "" and len(node["args"]) == 1:
+                return self._t(node["args"][0])
+            if kind.startswith("mutarg") and node.get("k") == "MethodCall" and int(kind.split(":")[1]) == 1:
+                name = cshort(node.get("callee", ""))
+                if name == "ToTokens::to_tokens" and len(node["args"]) == 1:
+                    return self._t(node["recv"])
+            return None
+        skip = set()
+        sep_after = {}
+        for i in range(len(effs) - 1):
+            # for (i, x) in it.enumerate() { if i > 0 { ts.extend(quote!(,)) }  ts.extend(P(x)) }   ==   #( P(x) ),*   over it
+            (n1, k1, _g1), r1 = effs[i], rel[i]
+            (n2, k2, _g2), r2 = effs[i + 1], rel[i + 1]
+            if len(r1) == 2 and len(r2) == 1 and r1[0][0] == "for" and r2[0][0] == "for" and r1[0][1] is r2[0][1] and r1[1][0] == "if" and r1[1][2] \
+                    and not _has_loop_exit(r1[0][2]) and sum(1 for rr in rel if rr and rr[0][0] == "for" and rr[0][1] is r1[0][1]) == 2:
+                en = self._t(r1[0][1])
+                if not (en[0] == "call" and en[1] == "Iterator::enumerate" and len(en[2]) == 1):
+                    continue
+                idx = ("field", ("elem", en), "0")
+                c = self._t(r1[1][1])
+                first = c in (("op", ">=", [idx, ("lit", "1")]), ("op", "!=", [idx, ("lit", "0")]), ("op", ">", [idx, ("lit", "0")]))
+                sp = piece_of(n1, k1)
+                if not first or sp is None or sp[0] != "tpl" or sp[3] or len(sp[2].split(" ")) != 1 or not sp[2]:
+                    continue
+                skip.add(i)
+                sep_after[i + 1] = (sp[2], en)
+        for ei, ((node, kind, _g), r) in enumerate(zip(effs, rel)):
+            if ei in skip:
+                continue
             if not r or r[0][0] != "for":
                 last_loop = None
             cond_guard = None
@@ -2446,6 +2476,22 @@ class Norm:
                         return None
                     slots.append(("call", "Option::map", [o, ("closure", d, 1, rewrite(piece, sub))]))
                 text.append("#%d" % (len(slots) - 1))
+            elif r and ei in sep_after:
+                sep, en = sep_after[ei]
+                it = en[2][0]
+                d = depth + 1
+                val = ("field", ("elem", en), "1")
+                piece = rewrite(piece, lambda n: ("elem", it) if n == val else None)
+                if any(x == ("elem", en) for x in subterms(piece)):
+                    return None
+                body_ = rewrite(piece, _elem_to_param(it, d))
+                if body_ == ("tpl", "quote", "#0", [("cparam", d, 0)]) or body_ == ("cparam", d, 0):
+                    slots.append(it)             # every element as it is
+                else:
+                    slots.append(("call", "Iterator::map", [it, ("closure", d, 1, body_)]))
+                text += ["#(", "#%d" % (len(slots) - 1), ")" + sep + "*"]
+                last_loop = None
+                continue
             elif r:
                 it = self._t(r[0][1])
                 d = depth + 1
@@ -2475,7 +2521,20 @@ class Norm:
             else:
                 slots.append(piece)
                 text.append("#%d" % (len(slots) - 1))
-        return ("tpl", "quote", " ".join(" ".join(text).split()), slots)
+        # a piece appended when c holds followed by a piece appended when it does not: one piece chosen by c
+        k = 0
+        while k + 1 < len(text):
+            m1, m2 = re.fullmatch(r"#(\d+)", text[k]), re.fullmatch(r"#(\d+)", text[k + 1])
+            if m1 and m2:
+                a, b = slots[int(m1.group(1))], slots[int(m2.group(1))]
+                if a[0] == "call" and a[1] == "then" and b[0] == "call" and b[1] == "then" and len(a[2]) == 2 and len(b[2]) == 2 \
+                        and (b[2][0] == _not(a[2][0]) or a[2][0] == _not(b[2][0])) and not _has_try(a[2][0]):
+                    slots[int(m1.group(1))] = _mk_if(a[2][0], a[2][1], b[2][1])
+                    del text[k + 1]
+                    continue
+            k += 1
+        tx, sl = _renumber_slots(" ".join(" ".join(text).split()), slots)
+        return ("tpl", "quote", tx, sl)
 
     def _canon_mut(self, lid, t, effs, origin):
         """canonical forms of simple mutable-local idioms:
@@ -3663,7 +3722,12 @@ class Norm:
                 d = args[0][1]
                 okv = ("proj", recv, "v1::Ok", "0")
                 X = _apply(args[0], okv)
-                if id(e) in self._ret_blocks and sum(1 for y in subterms(X) if y == okv) == 1:
+                def once_per_path(x):
+                    # the payload is used exactly once on every path through x (the branches of a conditional are different paths)
+                    if x[0] == "if" and not any(y == okv for y in subterms(x[1])):
+                        return once_per_path(x[2]) and once_per_path(x[3])
+                    return sum(1 for y in subterms(x) if y == okv) == 1
+                if id(e) in self._ret_blocks and once_per_path(X):
                     # as the result of the fn / closure (same error type by construction):  r.map(|v| X)  ==  Ok(X[r?])
                     return _mk_ok(rewrite(X, lambda n: ("try", recv) if n == okv else None))
                 return self._canon_match(recv, [("v1::Ok($)", None, ("call", "Ok", [X])), ("v1::Err($)", None, ("call", "Err", [("proj", recv, "v1::Err", "0")]))])
